@@ -63,11 +63,11 @@ Definition dstep (P : policy) (bo : nat) (stops : list Z) (base : state) (d : ds
   | HRelease => {| d_sys := step_op bo stops OpRelease (d_sys d) ; d_eng := d_eng d ; d_out := d_out d ; d_bad := d_bad d |}
   | HTick t now =>
     let r := reduce P t (d_eng d) now in
-    let rc := res_cmds r in
+    let tk := (is_idlecheck t, res_cmds r) in
     let out := match y_phase (d_sys d) with
-               | PhActive => snd (run_tick bo stops rc (y_store (d_sys d)))
+               | PhActive => snd (run_tick_m bo stops (y_marked (d_sys d)) tk (y_store (d_sys d)))
                | _ => None end in
-    {| d_sys := step_op bo stops (OpTick rc) (d_sys d) ;
+    {| d_sys := step_op bo stops (OpTick tk) (d_sys d) ;
        d_eng := match r with Ok (s', _) => s' | Err _ => d_eng d end ;
        d_out := match out with Some x => Some x | None => d_out d end ;
        (* a tick observed while the model has no live loop is a disagreement *)
